@@ -197,6 +197,9 @@ pub struct FaultPlan {
     /// fail the fallible mutating call with this index (counted from 0 over the run)
     pub fail_at: Option<u64>,
     pub fail_errno: c_int,
+    /// a second failing call: the `g`-th fallible mutating call issued after the harness armed it
+    /// (i.e. after the operation hit by the first fault has returned)
+    pub second_gap: Option<u64>,
     /// probability (per mille) that a write is shortened / a read is shortened / EINTR is returned
     pub short_write_pm: u32,
     pub short_read_pm: u32,
@@ -233,6 +236,9 @@ pub struct Sim {
     pub frng: Rng,
     pub counts: FaultCounts,
     pub fired_at: Option<(u64, Call, String)>,
+    pub second_armed: bool,
+    pub second_seen: u64,
+    pub second_fired: Option<(u64, Call, String)>,
     pub snap_all: bool,
     /// when set, snapshots are taken only before these steps (traces with tens of thousands of
     /// calls, e.g. the pre-created directory tree)
@@ -303,6 +309,9 @@ impl Sim {
             frng: Rng::new(seed ^ 0xfa17_fa17_fa17_fa17),
             counts: FaultCounts::default(),
             fired_at: None,
+            second_armed: false,
+            second_seen: 0,
+            second_fired: None,
             snap_all: false,
             snap_steps: None,
             snaps: Vec::new(),
@@ -428,6 +437,19 @@ impl Sim {
             self.counts.err_fired += 1;
             self.fired_at = Some((idx, call, rel.to_string()));
             return Verdict::Fail(if self.plan.fail_errno != 0 { self.plan.fail_errno } else { libc::EIO });
+        }
+        if self.second_armed && self.second_fired.is_none() {
+            if let Some(g) = self.plan.second_gap {
+                let n = self.second_seen;
+                self.second_seen += 1;
+                if n == g {
+                    self.counts.err_fired += 1;
+                    self.second_fired = Some((idx, call, rel.to_string()));
+                    // the event-log marker ("err") looks at the most recent firing
+                    self.fired_at = Some((idx, call, rel.to_string()));
+                    return Verdict::Fail(if self.plan.fail_errno != 0 { self.plan.fail_errno } else { libc::EIO });
+                }
+            }
         }
         Verdict::Pass
     }
